@@ -10,4 +10,6 @@ cargo build --release --offline -p refchess -p monlib -p mon_board -p mon_text -
 (cd /repo && CARGO_TARGET_DIR=/verif/harness/target-app cargo build --release --offline -p inkayaku_engine_app 2>&1 | tail -1)
 # sanitizer lane build (nightly AddressSanitizer); failure here is reported by the checks as inconclusive
 (RUSTFLAGS="-Zsanitizer=address -Cforce-frame-pointers=yes" CARGO_TARGET_DIR="$PWD/target-asan" cargo +nightly build --release --offline --target x86_64-unknown-linux-gnu -p mon_board 2>&1 | tail -1) || echo "asan build failed (lane will be inconclusive)"
+# the monitors once more in the shipped profile (lane "shipped-profile")
+(cd "$PWD" && cargo build --profile shipped --offline -p mon_board -p mon_text -p mon_lichess -p mon_engine 2>&1 | tail -1)
 echo "setup done"
